@@ -133,6 +133,15 @@ class BehavioralRTLIRToVVisitorL1( bir.BehavioralRTLIRNodeVisitor ):
   def is_verilog_reserved( s, name ):
     return s._is_verilog_reserved( name )
 
+  def visit_index_expr( s, idx ):
+    """Translate the index of an Index node. The array indices collected
+    so far belong to the signal that is being indexed, not to the signals
+    inside the index expression ( s.x[ s.sel ^ 1 ].inner[2].msg )."""
+    pending, s._unpacked_q = s._unpacked_q, deque()
+    ret = s.visit( idx )
+    s._unpacked_q = pending
+    return ret
+
   def process_unpacked_q( s, node, signal, signal_tplt ):
     if isinstance( node.Type, rt.Port ):
       filler = ''.join([f'[{i}]' for i in list(s._unpacked_q)])
@@ -525,7 +534,7 @@ class BehavioralRTLIRToVVisitorL1( bir.BehavioralRTLIRNodeVisitor ):
   def visit_Index( s, node ):
     node.idx._top_expr = True
 
-    idx   = s.visit( node.idx )
+    idx   = s.visit_index_expr( node.idx )
     value = s.visit( node.value )
     Type = node.value.Type
 
